@@ -15,6 +15,7 @@ pub fn harnesses() -> Vec<Harness> {
         Harness { name: "c08_batch_dedupe", property: "C08", f: c08_batch_dedupe, about: "batch scheduling with the same record version queued by two holders: at most one fetch per version, limit respected, returned = newly in flight" },
         Harness { name: "c08_farthest", property: "C08", f: c08_farthest, about: "set_farthest_on_full drops everything farther than the new farthest and never widens" },
         Harness { name: "c08_progress", property: "C08", f: c08_progress, about: "bounded liveness: an in-range key advertised every round by a responsive holder is fetched within 2 rounds (4 keys, limit 3)" },
+        Harness { name: "c09_range_follows", property: "C09", f: c09_range_follows, about: "the fetcher filters advertisements with the responsible range currently in force, whether it grew or shrank since it was first set" },
         Harness { name: "c09_divergent_version", property: "C09", f: c09_divergent_version, about: "a key held locally with version T1 and advertised with version T2 != T1 is scheduled or queued" },
     ]
 }
@@ -602,5 +603,27 @@ impl ReplicationFetcher {
     /// harness accessor: nothing queued and nothing in flight
     pub(crate) fn harness_is_idle(&self) -> bool {
         self.to_be_fetched.is_empty() && self.on_going_fetches.is_empty()
+    }
+}
+
+fn c09_range_follows() {
+    set_clock_frozen(true);
+    let mut fx = new_fetcher();
+    let _ = Instant::now();
+    let ty = types();
+    // the responsible range is set, then set again (wider or narrower: the solver's call)
+    let r1 = SymU::<256>::fresh("first_range");
+    let r2 = SymU::<256>::fresh("current_range");
+    fx.f.set_replication_distance_range(U256(r1));
+    fx.f.set_replication_distance_range(U256(r2));
+    let adv: Vec<(NetworkAddress, RecordType)> = vec![(NetworkAddress::from_record_key(&key(0)), ty[0].clone()), (NetworkAddress::from_record_key(&key(1)), ty[0].clone())];
+    let local: HashMap<RecordKey, (NetworkAddress, RecordType)> = HashMap::new();
+    let out = fx.f.add_keys(peer(1), adv, &local);
+    cover("ran");
+    for k in [key(0), key(1)] {
+        let taken = out.iter().any(|(_, kk)| *kk == k) || fx.f.to_be_fetched.keys().any(|(kk, _, _)| *kk == k) || fx.f.on_going_fetches.keys().any(|(kk, _)| *kk == k);
+        let in_range = dist(&fx, &k).sle(r2);
+        check("range_follows:record_within_current_range_is_taken", in_range.implies(SymBool::konst(taken)).0);
+        check("range_follows:record_beyond_current_range_is_not_taken", SymBool::konst(taken).implies(in_range).0);
     }
 }
